@@ -1,6 +1,8 @@
 import MosaikProofs.Lemmas.Tiered
 import MosaikProofs.Lemmas.IOSet
 import MosaikProofs.Properties.C08
+import MosaikProofs.Properties.C11
 import MosaikProofs.Properties.C12
+import MosaikProofs.Properties.C15
 import MosaikProofs.Properties.C18
 import MosaikProofs.Findings
